@@ -92,29 +92,34 @@ pub fn main(ctx: &Ctx, profile: Profile) -> i32 {
     }
     let n_l1 = ctx.tier.pick(1000u32, 25_000u32);
     let n_l2 = ctx.tier.pick(240u32, 4_000u32);
-    let fail = match profile {
-        Profile::Durability => run_cases(ctx, &stats, strat_c02_l1 as fn() -> _, n_l1, cores(), 3000, move |c| run_driven(c, Profile::Durability)),
-        Profile::Truncation => run_cases(ctx, &stats, strat_c03_l1 as fn() -> _, n_l1, cores(), 3000, move |c| run_driven(c, Profile::Truncation)),
-    };
-    if fail.is_some() {
-        return finish(ctx, &stats, fin(), fail);
-    }
-    let fail = match profile {
-        Profile::Durability => run_cases(ctx, &stats, strat_c02_l2 as fn() -> _, n_l2, cores(), 1500, move |c| run_driven(c, Profile::Durability)),
-        Profile::Truncation => run_cases(ctx, &stats, strat_c03_l2 as fn() -> _, n_l2, cores(), 1500, move |c| run_driven(c, Profile::Truncation)),
-    };
-    if fail.is_some() {
-        return finish(ctx, &stats, fin(), fail);
-    }
     // real file roll-over scenarios (170k - 260k appends each, ~20 - 60 s): the first log file is filled up to a
-    // generated distance from the switch, then a short generated history works across it
+    // generated distance from the switch, then a short generated history works across it. They run on their own
+    // threads next to the L1 / L2 tiers.
     if std::env::var("RNV_CASE_TIMEOUT_MS").is_err() {
         std::env::set_var("RNV_CASE_TIMEOUT_MS", "900000");
     }
     let n_roll = ctx.tier.pick(4u32, 48u32);
-    let fail = match profile {
-        Profile::Durability => run_cases(ctx, &stats, strat_c02_roll as fn() -> _, n_roll, 8, 40, move |c| run_driven(c, Profile::Durability)),
-        Profile::Truncation => run_cases(ctx, &stats, strat_c03_roll as fn() -> _, n_roll, 8, 40, move |c| run_driven(c, Profile::Truncation)),
-    };
-    finish(ctx, &stats, fin(), fail)
+    let only_roll = std::env::var("RNV_LOG_TIER").map(|v| v == "roll").unwrap_or(false);
+    let (fail_main, fail_roll) = std::thread::scope(|sc| {
+        let stats_r = stats.clone();
+        let roll = sc.spawn(move || match profile {
+            Profile::Durability => run_cases(ctx, &stats_r, strat_c02_roll as fn() -> _, n_roll, 4, 40, move |c| run_driven(c, Profile::Durability)),
+            Profile::Truncation => run_cases(ctx, &stats_r, strat_c03_roll as fn() -> _, n_roll, 4, 40, move |c| run_driven(c, Profile::Truncation)),
+        });
+        let mut fail = None;
+        if !only_roll {
+            fail = match profile {
+                Profile::Durability => run_cases(ctx, &stats, strat_c02_l1 as fn() -> _, n_l1, cores(), 3000, move |c| run_driven(c, Profile::Durability)),
+                Profile::Truncation => run_cases(ctx, &stats, strat_c03_l1 as fn() -> _, n_l1, cores(), 3000, move |c| run_driven(c, Profile::Truncation)),
+            };
+            if fail.is_none() {
+                fail = match profile {
+                    Profile::Durability => run_cases(ctx, &stats, strat_c02_l2 as fn() -> _, n_l2, cores(), 1500, move |c| run_driven(c, Profile::Durability)),
+                    Profile::Truncation => run_cases(ctx, &stats, strat_c03_l2 as fn() -> _, n_l2, cores(), 1500, move |c| run_driven(c, Profile::Truncation)),
+                };
+            }
+        }
+        (fail, roll.join().unwrap_or(None))
+    });
+    finish(ctx, &stats, fin(), fail_main.or(fail_roll))
 }
